@@ -874,6 +874,7 @@ func (c *EvalCtx) call(n *Node) Val {
 			lineStart = iota
 			oneSlash
 			inComment
+			inSummary
 		)
 		state := lineStart
 		for _, f := range t.Frags {
@@ -883,6 +884,10 @@ func (c *EvalCtx) call(n *Node) Val {
 					switch state {
 					case lineStart:
 						switch r {
+						case '\x00':
+							// the call-site summary of Emitter.Comment/Commentf ("emitted as
+							// comment lines"), itself an obligation of those functions
+							state = inSummary
 						case '\t', ' ', '\n':
 						case '/':
 							state = oneSlash
@@ -894,18 +899,21 @@ func (c *EvalCtx) call(n *Node) Val {
 							return tFalse
 						}
 						state = inComment
-					case inComment:
+					case inComment, inSummary:
 						if r == '\n' {
 							state = lineStart
 						}
 					}
 				}
 			case FAtom:
+				if state == inSummary {
+					continue
+				}
 				if state != inComment || !(strings.HasPrefix(f.Atom, "line0(") || strings.HasPrefix(f.Atom, "line1(")) {
 					return tFalse
 				}
 			case FNum:
-				if state != inComment {
+				if state != inComment && state != inSummary {
 					return tFalse
 				}
 			}
